@@ -134,19 +134,20 @@ static void one_case(const vf::Args& a, uint64_t idx, const char* tname) {
     L m[36], mi[36];
     for (int p = 0; p < ns; ++p) for (int q = 0; q < ns; ++q) m[p * ns + q] = L(Ai(p, q));
     bool done = false;
+    const L KI = 4096;  // LU with partial pivoting: observed err/(eps kappa scale) <= 55 on the unchanged tree
     if (gj_inverse(ns, m, mi)) {
       L n1 = 0, n2 = 0;
       for (int p = 0; p < ns * ns; ++p) { n1 += m[p] * m[p]; n2 += mi[p] * mi[p]; }
       n1 = std::sqrt(n1); n2 = std::sqrt(n2);
       const L kappa = n1 * n2;
-      if (std::isfinite(double(kappa)) && kappa * eps * K * 16 < 2e-3L) {
+      if (std::isfinite(double(kappa)) && kappa * eps * KI < 1e-2L) {
         const auto X = tfm::invert(Ai);
         // reference as a full tensor: the Mandel matrix of the inverse map
         const MatView Xr{mi, ns};
-        R.check(nm("invert"), S, idx, h, t4dist(from_st2tost2(X, N), from_st2tost2(Xr, N)), K * 16 * eps * kappa * n2, dump);
+        R.check(nm("invert"), S, idx, h, t4dist(from_st2tost2(X, N), from_st2tost2(Xr, N)), KI * eps * kappa * n2, dump);
         // defining identity from the returned value only
         const T4 P = ddot(from_st2tost2(X, N), from_st2tost2(Ai, N));
-        R.check(nm("invert:X*A=Id"), S, idx, h, t4dist(P, restrict_dim(t4idsym(), N)), K * 16 * eps * kappa * std::sqrt(L(ns)), dump);
+        R.check(nm("invert:X*A=Id"), S, idx, h, t4dist(P, restrict_dim(t4idsym(), N)), KI * eps * kappa * std::sqrt(L(ns)), dump);
         done = true;
       }
     }
